@@ -34,6 +34,12 @@ CHECKS = {
  "C18": dict(engine="sizesim", cat="exploration", ref="DESIGN.md §6 C18",
    text="Seeded growing workloads under MaxSize values drawn around every alignment boundary; file length monitored at every ftruncate/pwrite and after every step; failing transactions must fail with the size-limit error and leave state intact.",
    tech="deterministic simulation: I/O interposition length monitor over seeded growing workloads x limit/map-size/alloc-size configurations"),
+ "C02": dict(engine="schedsim", cat="exploration", ref="DESIGN.md §6 C02",
+   text="Seeded exploration of reader/writer interleavings under a token scheduler (every scheduling decision from the tape, exact replay): readers of different ages dump their whole view in chunks while writers commit, roll back, reuse pages, grow and remap; each dump is compared with the model version of the reader's txid.",
+   tech="deterministic simulation: seeded token scheduler over lock-probe/yield/I/O hooks in a synctest bubble, versioned reference model"),
+ "C03": dict(engine="schedsim", cat="exploration", ref="DESIGN.md §6 C03",
+   text="Seeded exploration of multi-writer/reader/Stats/Close interleavings: one-writer monitor, consecutive ids, serial replay of every writer's reads against the model in id order, invisibility of failed bodies, porcupine linearizability of the txid history, deadlock detection, Close semantics. Race freedom is not decided by this arm.",
+   tech="deterministic simulation: seeded token scheduler, serial-replay oracle + porcupine linearizability of the recorded history"),
 }
 
 NA_PENDING = {}
@@ -56,6 +62,7 @@ m = {
    {"name":"crashsim","path":"props/crashsim.go","serves_properties":["C01","C06"],"kind_free_text":"record-once history over the shadow disk, crash-state construction, real recovery; pwrite monitor"},
    {"name":"faultsim","path":"props/faultsim.go","serves_properties":["C08"],"kind_free_text":"k-th I/O call of a commit fails; state, readers, next writer and reopen checked"},
    {"name":"sizesim","path":"props/sizesim.go","serves_properties":["C18"],"kind_free_text":"growing workloads under MaxSize with a file-length monitor on the I/O hooks"},
+   {"name":"schedsim","path":"props/schedsim.go","serves_properties":["C02","C03"],"kind_free_text":"multi-task runs under the token scheduler inside a synctest bubble"},
    {"name":"modelsim","path":"props/modelsim.go","serves_properties":["C04","C05","C07","C12"],"kind_free_text":"fault-free single-task arm of the simulator: seeded programs, reference model, independent decoder"},
  ],
  "checks": [],
